@@ -56,6 +56,7 @@ def merge_text(n):
 
 class C09(DocProp):
     id = "C09"
+    once_kinds = ("exh",)
     rule = ("cases: (a) exhaustive: every string of <= 7 symbols over [a space . \" , newline ? U+2026] through "
             "ellipses() (2,396,745 strings, split over shards by the first two symbols); (b) G-doc documents (profiles "
             "typo, core, tags: dot runs in prose, in code, in tags, in URLs) x random settings of every other option, "
